@@ -92,6 +92,11 @@ type summaryWalker struct {
 	exports         []*TypeRef
 	refs            []*sourcewalk.RefNode
 	subPackageFiles []string
+
+	// subFileDepth is non-zero while walking the messages of a service or topic
+	// file. Those are declared in the .service / .topic sub-package, they are
+	// not exports of the source file's own package.
+	subFileDepth int
 }
 
 func (c *summaryWalker) includeSubFile(subPackage string) {
@@ -104,6 +109,9 @@ func (c *summaryWalker) includeSubFile(subPackage string) {
 }
 
 func (c *summaryWalker) addExport(ref *TypeRef) {
+	if c.subFileDepth > 0 {
+		return
+	}
 	c.exports = append(c.exports, ref)
 }
 
@@ -145,6 +153,22 @@ func (cc *summaryWalker) collectFileRefs(sourceFile *sourcedef_j5pb.SourceFile) 
 		},
 		Topic: func(node *sourcewalk.TopicNode) error {
 			cc.includeSubFile("topic")
+			return nil
+		},
+		ServiceFile: func(*sourcewalk.ServiceFileNode) error {
+			cc.subFileDepth++
+			return nil
+		},
+		ServiceFileExit: func(*sourcewalk.ServiceFileNode) error {
+			cc.subFileDepth--
+			return nil
+		},
+		TopicFile: func(*sourcewalk.TopicFileNode) error {
+			cc.subFileDepth++
+			return nil
+		},
+		TopicFileExit: func(*sourcewalk.TopicFileNode) error {
+			cc.subFileDepth--
 			return nil
 		},
 	}
